@@ -601,6 +601,12 @@ func WideBig(r *rand.Rand, maxKeys int) KeySet {
 		m[pre] = struct{}{} // the key that ends at the wide node
 	}
 	fan := 129 + r.Intn(128)
+	if r.Intn(3) == 0 {
+		fan = 256 // every byte value: with the key that ends at the node, all 257 labels are present
+		if pre == "" && r.Intn(2) == 0 {
+			m[""] = struct{}{}
+		}
+	}
 	if fan > maxKeys {
 		fan = maxKeys
 	}
